@@ -13,6 +13,7 @@ Decides:
 Does not decide: field rendering, score-based layout detection on real files.
 """
 import re
+import json as _json8
 
 import c03
 import decide
@@ -962,6 +963,43 @@ def run(prog, rep, tier):
         if len(fs_) > 1:
             rep.violation(R818, "as_bytes|ut_type-labels|shared:%s" % "+".join(sorted(fs_)), "FixedStruct::as_bytes names the ut_type of %s records through one table (%s ...); these platforms number the types differently, "
                           "so records of at least one of them are printed with the wrong type name (a FreeBSD login, type 4, as 'OLD_TIME')" % (" and ".join(sorted(fs_)), ", ".join(t_[:5])))
+
+    # ------------------------------------------------------------ R8.20 every label of a rendered record is followed by the field it names
+    # as_bytes writes `label value label value ...`; the labels are the C field names (`ut_pid`, `e_exit`,
+    # `ac_uid`).  Where a label's last word is a field name of the record structs, the statements up to the
+    # next label (relative source-line order, as in C19 R19.13) read a field of that name; a label followed
+    # by its neighbour's value (`e_exit` showing e_termination) prints a record with another field's value.
+    R820 = rep.rule("R8.20", "in FixedStruct::as_bytes every label that is a field name is followed by a read of that field")
+    fld_names = set()
+    for ap_, ad_ in prog.facts.adts.items():
+        if ap_.startswith("s4lib::data::fixedstruct::") and ad_.get("kind") == "struct":
+            for f_ in ad_["variants"][0]["fields"]:
+                fld_names.add(f_["name"])
+    labs820, reads820 = [], []
+    for bb in sorted(ab_.live):
+        for st in ab_.stmts(bb):
+            if st[0] != "=" or len(st) < 4 or not isinstance(st[3], int):
+                continue
+            rv_ = st[2]
+            if rv_[0] == "use" and rv_[1][0] == "k" and isinstance(rv_[1][2], str) and "str" in str(rv_[1][1]):
+                labs820.append((st[3], rv_[1][2]))
+            for m_ in _re8.finditer(r'\[".", \d+, "(\w+)"\]', _json8.dumps(rv_)):
+                reads820.append((st[3], m_.group(1)))
+    labs820.sort()
+    n820 = 0
+    for i_, (ln_, txt_) in enumerate(labs820):
+        w_ = _re8.findall(r"[A-Za-z_][A-Za-z_0-9]*", txt_)
+        if not w_ or w_[-1] not in fld_names:
+            continue
+        hi_ = labs820[i_ + 1][0] if i_ + 1 < len(labs820) else 10 ** 9
+        got_ = set(nm_ for (l2_, nm_) in reads820 if ln_ <= l2_ < hi_ and nm_ in fld_names)
+        n820 += 1
+        rep.examined(R820, "as_bytes|%s@%d" % (w_[-1], n820), sample={"line": ln_, "label": txt_.strip(), "fields_read_before_the_next_label": sorted(got_)[:5]} if n820 <= 3 or w_[-1] not in got_ else None)
+        if got_ and w_[-1] not in got_:
+            rep.violation(R820, "as_bytes|label-%s|shows-%s" % (w_[-1], "+".join(sorted(got_))), "FixedStruct::as_bytes (line %d): the label '%s' is followed by the value of %s; the record is printed with another field's value under this name"
+                          % (ln_, txt_.strip(), sorted(got_)))
+    if n820 < 60:
+        raise CheckerError("R8.20: only %d labels that are field names found in as_bytes" % n820)
 
     # ------------------------------------------------------------ R8.17 the layout is a function of the file (lift of C06 R6.12 at the reader)
     # score_file walks the candidate layouts and keeps the first that reaches the highest score.  The
